@@ -1,18 +1,15 @@
 //go:build verif
 
-package camelcase
+package sumfile
 
 // Contracts checked by /verif/govc (see /verif/DESIGN.md). This file is compiled only with -tags verif.
 
-//@ func Split
-//@   props C19 C03
-//@   ensures !utf8.ValidString(src) ==> len(entries) == 1 && entries[0] == src
-//@   ensures forall e int :: 0 <= e && e < len(entries) ==> len(entries[e]) > 0
-//@   loop 1 invariant forall g int :: 0 <= g && g < len(runes) ==> len(runes[g]) > 0
-//@   loop 2 invariant 0 <= i
-//@   loop 2 invariant forall g int :: i <= g && g < len(runes) ==> len(runes[g]) > 0
-//@   loop 2 decreases len(runes) - i
-//@   loop 3 invariant forall e int :: 0 <= e && e < len(entries) ==> len(entries[e]) > 0
+//@ func File.Sum
+//@   props C08
+//@   pure
+//@   requires f != nil
+//@   ensures has(f.Data, pkgPath) ==> result == f.Data[pkgPath]
+//@   ensures !has(f.Data, pkgPath) ==> result == ""
 
 // ---- govc prelude: ghost helpers of the clause language (identical in every contracts_verif.go) ----
 
